@@ -165,10 +165,16 @@ func (c *FnCtx) bindClause(cl *clause, env *evalEnv, prefix string) *boundClause
 				fl.argV = append(fl.argV, nil)
 				continue
 			}
-			if fl.iter != nil {
-				// iteration-local event: the pattern is evaluated when a matching call executes
+			if fl.iter != nil || isWherePattern(a) {
+				// iteration-local event (or where(x, cond) pattern): the pattern is evaluated when a matching call executes
 				fl.args = append(fl.args, a)
-				fl.argT = append(fl.argT, fmt.Sprintf("lazy:%p:%s", a, exprTextFull(a))) // never shared between clauses
+				if fl.iter != nil {
+					fl.argT = append(fl.argT, fmt.Sprintf("lazy:%p:%s", a, exprTextFull(a))) // never shared between clauses
+				} else {
+					// function-level where(...) pattern: clauses with the same text share the flag,
+					// so an invariant can carry the event of an ensures
+					fl.argT = append(fl.argT, "lazy:"+exprTextFull(a))
+				}
 				fl.argV = append(fl.argV, nil)
 				continue
 			}
@@ -203,6 +209,15 @@ func (c *FnCtx) bindClause(cl *clause, env *evalEnv, prefix string) *boundClause
 		return nil
 	}
 	return bc
+}
+
+func isWherePattern(a specExpr) bool {
+	if w, ok := a.(*eCall); ok {
+		if id, ok := w.fun.(*eIdent); ok && id.name == "where" && len(w.args) == 2 {
+			return true
+		}
+	}
+	return false
 }
 
 func exprText(e specExpr) string {
@@ -317,11 +332,14 @@ func (c *FnCtx) setupSpec(st0 *State) {
 		}
 		s.ens = append(s.ens, bc)
 	}
+	if c.spec.loopCount > 0 && len(c.loopOrd) != c.spec.loopCount {
+		c.unsupported("contract %s:%d: the function has %d loops, its `loop <n>` clauses were written for %d (loops were added or removed: the ordinals may designate other loops)", strings.TrimPrefix(c.spec.loopCountLine.file, repoDir+"/"), c.spec.loopCountLine.line, len(c.loopOrd), c.spec.loopCount)
+	}
 	// loops designated by a variable name: the innermost loop containing every reference to it
 	for name, ls := range c.spec.loopsByName {
 		li := c.loopOfVar(name)
 		if li == nil {
-			c.unsupported("contract: no loop binds variable %q", name)
+			c.unsupported("contract : no loop binds variable %q (renamed or removed)", name)
 			continue
 		}
 		if ex := c.spec.loops[li.ordinal]; ex != nil && ex != ls {
